@@ -10,9 +10,10 @@ Part A: the segmented doubling deque of `server/queue.go` (one model for the thr
   * Spec = plain `List` deque: push = append, pushLeft = cons, pop = remove first, popRight = remove last,
     head / tail = first / last element (`none` for a hole or an empty queue), len = length (holes count).
   * PROVED for all states satisfying `QInv`, all constructor parameters from 1 up, and (by induction) all operation
-    sequences of any length: Push, PushLeft, Pop, PopRight, Head, Tail, Len.
+    sequences of any length: Push, PushLeft, Pop, PopRight, Head, Tail, Len, Reset, Rellac, freeQueue.
   * NOT PROVED in general (named `…_partial`, concrete instances only; validated by the differential check and the
-    monitor on the real code): Reset, Rellac, Resize, freeQueue, Restructuring, IterNodes/IterNodeQueues, in-place holes.
+    monitor on the real code): Resize, Restructuring, IterNodes/IterNodeQueues, in-place holes.  (`Resize` keeps the
+    content but NOT `QInv` when spare nodes exist behind the tail node: `resize_leaves_orphan_node`.)
   * Where the real code does NOT refine the spec, a concrete witness is proved by `decide`:
     `pushLeft_refuses_at_origin`, `shrink_breaks_len`, `restructuring_with_spare_node_breaks_push`.
   * The db.go copies `restructuringLong*Queue` had such a defect on a production path; it is repaired in /repo f18505b and
@@ -58,7 +59,18 @@ theorem deque_head_tail_len {q : Q} (h : QInv q) :
     head q = .ok (abs q).head?.join ∧ tail q = .ok (abs q).getLast?.join ∧ len q = .ok ((abs q).length : Int) :=
   ⟨head_refines h, tail_refines h, len_refines h⟩
 
-/-- Lifted: EVERY operation sequence (any length) of Push / PushLeft / Pop / PopRight / Head / Tail / Len from any
+/-- Reset ≙ clear and Rellac ≙ clear: no panic, invariant re-established, content empty — from EVERY state satisfying
+the invariant. -/
+theorem deque_reset_rellac {q : Q} (h : QInv q) :
+    (∃ q', reset q = .ok q' ∧ QInv q' ∧ abs q' = []) ∧ (∃ q', rellac q = .ok q' ∧ QInv q' ∧ abs q' = []) :=
+  ⟨reset_refines h, rellac_refines h⟩
+
+/-- freeQueue ≙ identity (spare nodes behind the tail node are released, the content is untouched). -/
+theorem deque_freeQueue {q : Q} (h : QInv q) :
+    ∃ q', freeQueue q = .ok q' ∧ QInv q' ∧ abs q' = abs q := freeQueue_refines h
+
+/-- Lifted: EVERY operation sequence (any length) of Push / PushLeft / Pop / PopRight / Head / Tail / Len / Reset /
+Rellac / freeQueue from any
 state satisfying the invariant runs without panic, keeps the invariant, and its observations are a run of the plain
 deque (`SpecRun`; PushLeft may answer "full" and then inserts nothing). -/
 theorem deque_run {q : Q} (h : QInv q) (ops : List Op) :
@@ -115,9 +127,10 @@ def maintWitness : Res (List (List Elem)) := do
   pure [abs q, i0, abs q1, i1, abs q2, i2, abs q3, i3, i4, i5, abs q6, i7]
 
 /-- PARTIAL (one concrete run, not a general theorem): in-place hole ≙ `set pos none`, iteration = content,
-Resize / freeQueue ≙ identity, Restructuring ≙ drop holes, Reset / Rellac ≙ clear.  The general statements
-(`QInv q → abs (op q) = specOp (abs q)`) are NOT proved; on the real code they are checked by the differential
-test and by the reference-deque monitor of `zz_verif_queue_test.go` on every run. -/
+Resize ≙ identity, Restructuring ≙ drop holes (the run also passes through freeQueue / Reset / Rellac, which ARE
+proved in general: `deque_freeQueue`, `deque_reset_rellac`).  The general statements for Resize, Restructuring,
+iteration and holes are NOT proved; on the real code they are checked by the differential test and by the
+reference-deque monitor of `zz_verif_queue_test.go` on every run. -/
 theorem deque_maintenance_partial :
     maintWitness = .ok
       [[some 5, none, some 7, some 8, some 9], [some 5, none, some 7, some 8, some 9],
@@ -145,6 +158,21 @@ def shrinkWitness : Res (Int × Nat × Int) := do
   pure (n0, r, n1)
 
 theorem shrink_breaks_len : shrinkWitness = .ok (5, 4, 1) := by decide
+
+/-- `Resize` (no production caller) in a state with a spare allocated node behind the tail node: the content is kept
+([4,5,6]) but `nodeIndex` (1) no longer covers the allocated nodes (node 3 stays allocated): `QInv` is lost, which is
+why Resize has no general theorem here.  New(1,1,1); Push 1..8; PopRight ×2; Pop ×3; Resize. -/
+def resizeWitness : Res (List Elem × Nat × List Bool) := do
+  let q ← newQueue 1 1 1
+  let q ← pushN q [1, 2, 3, 4, 5, 6, 7, 8]
+  let (q, _) ← popRight q
+  let (q, _) ← popRight q
+  let q ← popN q 3
+  let q ← resize q
+  pure (abs q, q.nodeIndex, q.queues.map Option.isSome)
+
+theorem resize_leaves_orphan_node :
+    resizeWitness = .ok ([some 4, some 5, some 6], 1, [true, true, false, true]) := by decide
 
 /-- `Restructuring` (queue.go; no production caller) in a state with a spare allocated node behind the tail node
 (`nodeIndex > tailNodeIndex`): New(1,1,1); Push 1..8; PopRight ×2; Pop ×6; Restructuring leaves `queueSize = 0`
